@@ -220,6 +220,8 @@ def check_output(res, sysd, info, kw, outp, key_suffix=""):
 def run_case(cid, rng, workdir):
     res = new_result()
     sysd = T.gen_system(rng, min_res=4 if cid[0] == "faults" else 1)
+    if rng.random() < 0.3 and T.add_mass_overrides(rng, sysd):
+        bump(res, "systems_with_per_atom_masses")
     text = T.render_top(sysd)
     with open(os.path.join(workdir, "s.top"), "w") as fh:
         fh.write(text)
